@@ -22,6 +22,7 @@ class _WriterBase(Writer, ABC):
         self._command_executor = command_executor
 
     def write(self, tmp_file_space: DirFileSpace, output: TextIO):
+        output.flush()  # the process writes via the file descriptor: text written earlier must precede its output
         with as_stdin.of_sequence(self._command.stdin, mem_buff_size=0) as stdin_f:
             std_files = StdFiles(stdin_f, self._output_files(output))
             self._command_executor.execute(
